@@ -75,7 +75,7 @@ def renderKerning (k : Kern.Kerning) : String :=
 def hasSuffixed (t : Kern.Table) (pfx legacy : Str) : Bool :=
   t.any (fun e => e.2 != pfx ++ removeAll legacy e.1)
 
-def runLoad (fmtTok gTok kTok sTok lTok : String) (obs : List String) : Verdict :=
+def runLoadSeg (fmtTok gTok kTok sTok lTok : String) (obs : List String) : Verdict :=
   match fmtTok.toNat?, parseGroups gTok, parseKerning kTok, parseSet "S:" sTok, parseSet "L:" lTok with
   | some fmt, some g?, some k?, some S, some L =>
     let legacy := fmt != 3
@@ -149,7 +149,7 @@ def runLoad (fmtTok gTok kTok sTok lTok : String) (obs : List String) : Verdict 
     { agree := modelOut == implOut, spec := spec, tags := tags, model := modelOut }
   | _, _, _, _, _ => { agree := false, model := "bad-input" }
 
-def runSave (gTok : String) (obs : List String) : Verdict :=
+def runSaveSeg (gTok : String) (obs : List String) : Verdict :=
   match parseGroups gTok with
   | some (some g) =>
     let modelOut := match Kern.validateGroups g with
@@ -162,6 +162,9 @@ def runSave (gTok : String) (obs : List String) : Verdict :=
     let valid := KernSpec.validGroupsB g
     let spec := match obs with
       | "ok" :: _ => if valid then [] else ["wrote-invalid-groups"]
+      | "ok-but-reload-fails" :: _ => if valid then ["written-groups-do-not-reload"] else ["wrote-invalid-groups"]
+      | "ok-but-reload-differs" :: _ =>
+        (if valid then [] else ["wrote-invalid-groups"]) ++ ["written-groups-reload-differently"]
       | "err" :: _ => if valid then ["refused-valid-groups"] else []
       | _ => ["panic-or-unknown"]
     let kern := g.any (fun e => Kern.pfx1.isPrefixOf e.1 || Kern.pfx2.isPrefixOf e.1)
@@ -170,6 +173,45 @@ def runSave (gTok : String) (obs : List String) : Verdict :=
       (if kern then ["has-kern-group", "nt"] else [])
     { agree := modelOut == implOut, spec := spec, tags := tags, model := modelOut }
   | _ => { agree := false, model := "bad-input" }
+
+/-- split the observation at `||`: one segment per entry point of the API -/
+def segments (obs : List String) : List (List String) :=
+  let rec go (cur : List String) : List String → List (List String)
+    | [] => [cur.reverse]
+    | "||" :: r => cur.reverse :: go [] r
+    | t :: r => go (t :: cur) r
+  go [] obs
+
+/-- merge the verdicts of the entry points: all must agree with the model and satisfy the specification -/
+def mergeSegs (vs : List (String × Verdict)) : Verdict :=
+  match vs with
+  | [] => { agree := false, model := "no-observation" }
+  | (_, v0) :: _ =>
+    let bad := vs.filter (fun nv => !nv.2.agree || !nv.2.spec.isEmpty)
+    let spec := vs.foldl (fun acc nv => acc ++ nv.2.spec.filter (fun r => !acc.contains r)) []
+    let note := match bad with
+      | [] => ""
+      | (n, v) :: _ => if n == (vs.head?.map (·.1)).getD "" then "" else "[entry point " ++ n ++ ": model " ++ v.model ++ "] "
+    { agree := vs.all (·.2.agree), spec := spec, tags := v0.tags, model := note ++ v0.model }
+
+/-- `Font::load`, `Font::load_requested_data(default)`, `Font::load_requested_data(groups + kerning only)`;
+    the third loads no layers, so the glyph set is empty -/
+def runLoad (fmt g k s l : String) (obs : List String) : Verdict :=
+  match segments obs with
+  | [o1] => runLoadSeg fmt g k s l o1
+  | [o1, o2, o3] => mergeSegs [("Font::load", runLoadSeg fmt g k s l o1),
+      ("Font::load_requested_data(default)", runLoadSeg fmt g k s l o2),
+      ("Font::load_requested_data(groups,kerning)", runLoadSeg fmt g k "S:" "L:" o3)]
+  | _ => { agree := false, model := "bad-observation" }
+
+/-- `Font::save`, `Font::save_with_options(default)`, `Font::save_with_options(two spaces, single quotes)` -/
+def runSave (g : String) (obs : List String) : Verdict :=
+  match segments obs with
+  | [o1] => runSaveSeg g o1
+  | [o1, o2, o3] => mergeSegs [("Font::save", runSaveSeg g o1),
+      ("Font::save_with_options(default)", runSaveSeg g o2),
+      ("Font::save_with_options(custom)", runSaveSeg g o3)]
+  | _ => { agree := false, model := "bad-observation" }
 
 def run (inp obs : List String) : Verdict :=
   match inp with
